@@ -67,6 +67,10 @@ pub enum Val {
     SW(i64),
     /// unsigned word bound to the final index of entry #k (k = position in the spec's entry list)
     Ref(usize),
+    /// signed word (closure) giving the final index of entry #k
+    SRef(usize),
+    /// signed word (closure) giving final index of entry #k minus the final index of the entry itself
+    SRel(usize),
 }
 
 #[derive(Clone, Debug)]
@@ -165,6 +169,8 @@ impl Val {
                 }
             }
             Val::Ref(k) => json!({"ref": k}),
+            Val::SRef(k) => json!({"sref": k}),
+            Val::SRel(k) => json!({"srel": k}),
         }
     }
     pub fn from_json(j: &J) -> Val {
@@ -181,6 +187,10 @@ impl Val {
             Val::C(v[0].as_u64().unwrap() as u16, v[1].as_u64().unwrap() as u32)
         } else if let Some(v) = j.get("a") {
             Val::A(crate::unhex(v.as_str().unwrap()))
+        } else if let Some(v) = j.get("sref") {
+            Val::SRef(v.as_u64().unwrap() as usize)
+        } else if let Some(v) = j.get("srel") {
+            Val::SRel(v.as_u64().unwrap() as usize)
         } else {
             Val::Ref(j["ref"].as_u64().unwrap() as usize)
         }
@@ -371,6 +381,24 @@ pub fn populate(
                     };
                     jbk::Value::UnsignedWord(bound.into())
                 }
+                Val::SRef(t) => {
+                    let target = match &returned[*t] {
+                        Some(b) => b.clone(),
+                        None => binds[*t].clone(),
+                    };
+                    let f: Box<dyn Fn() -> i64 + Sync + Send> = Box::new(move || target.get().into_u64() as i64);
+                    jbk::Value::SignedWord(f.into())
+                }
+                Val::SRel(t) => {
+                    let target = match &returned[*t] {
+                        Some(b) => b.clone(),
+                        None => binds[*t].clone(),
+                    };
+                    let me = binds[k].clone();
+                    let f: Box<dyn Fn() -> i64 + Sync + Send> =
+                        Box::new(move || target.get().into_u64() as i64 - me.get().into_u64() as i64);
+                    jbk::Value::SignedWord(f.into())
+                }
             };
             map.insert(name, val);
         }
@@ -556,6 +584,8 @@ pub fn expected_entry(spec: &DirSpec, k: usize, final_pos: &dyn Fn(usize) -> u64
             Val::C(p, c) => RVal::C(*p, *c),
             Val::A(a) => RVal::A(a.clone()),
             Val::Ref(t) => RVal::U(final_pos(*t)),
+            Val::SRef(t) => RVal::S(final_pos(*t) as i64),
+            Val::SRel(t) => RVal::S(final_pos(*t) as i64 - final_pos(k) as i64),
         };
         vals.insert(name.as_str().to_string(), rv);
     }
